@@ -10,10 +10,17 @@ THEOREMS = [
     'Ndn.C08.announced_length_exact', 'Ndn.C08.enc_wellformed', 'Ndn.C08.writeTlNum_shortest',
     'Ndn.C08.uint_smallest_width', 'Ndn.C08.parse_enc_roundtrip',
     'Ndn.C08.unknown_noncritical_skipped', 'Ndn.C08.unknown_critical_rejected', 'Ndn.Gen.C08.shipped_wf',
+    # the metaclass (inheritance / IncludeBase): NdnModel/ClassMerge.lean
+    'Ndn.C08.merge_is_assignment', 'Ndn.C08.merge_ok_iff', 'Ndn.C08.merged_order',
+    'Ndn.C08.merged_field_is_last_assignment', 'Ndn.C08.merged_plain', 'Ndn.C08.base_not_included_ignored',
+    'Ndn.C08.inherit_without_include', 'Ndn.C08.derived_encodes_in_merged_order', 'Ndn.Gen.C08.shipped_merge_ok',
 ]
 PARTIAL = {}
 TRUSTED = [
-    'C08: the metaclass merge (inheritance / IncludeBase) is resolved by the library before extraction: the model starts from _encoded_fields; random classes with inheritance are exercised by the correspondence only',
+    'C08: the metaclass (TlvModelMeta.__new__: own fields, IncludeBase, overrides, bases that are not included) is modelled '
+    '(Ndn.Codec.mergeFields) from the class namespace on: the step class statement -> cls.__dict__ (name mangling, the order '
+    'of a dict) and the MRO / attribute lookup on instances are CPython; a field object bound to two names, and field '
+    'objects whose .name was changed after class creation, are outside the model',
     'C08: text fields are UTF-8 bytes in the model; str<->UTF-8 is CPython',
 ]
 RULE = ('(a) randomly generated TlvModel classes (random field kinds incl. nested models, repeated, map, markers; type '
@@ -22,7 +29,13 @@ RULE = ('(a) randomly generated TlvModel classes (random field kinds incl. neste
         'extracted live from _encoded_fields; each case is encoded by the real code and by the model, decoded back, and decoded '
         'again after one structural mutation (unknown critical / non-critical element inserted at a gap, duplicated or swapped '
         'elements, truncation, length edit; half of the insertions go INSIDE the Value of a sub-model element). Hardening '
-        'streams: (c) shapes - Type numbers 252/253/254, 65535/65536, 2^32-1 next to each other, repeated sub-models holding '
+        'streams: (m) the metaclass - hierarchies of 1-4 generated classes (one or two bases incl. diamonds, TlvModel itself or a '
+        'non-TlvModel mixin as a base, bases that are not included, a base included twice, overrides before/after the '
+        'IncludeBase, names assigned twice in the class body, non-field attributes, dunder names, IncludeBase of a class that '
+        'is not a direct base / not a TlvModel) and every shipped class that has a base class or an IncludeBase attribute '
+        '(discovered by walking the package): the Lean model computes the merged field list from the class declarations and the '
+        '(live) field lists of the bases, compared with the live _encoded_fields by name and field-object identity, and judged '
+        'against the documented rule where the documentation speaks; (c) shapes - Type numbers 252/253/254, 65535/65536, 2^32-1 next to each other, repeated sub-models holding '
         'repeated fields, a map inside a repeated sub-model, fixed-length integers of every width; text whose UTF-8 length '
         'is next to 253 (1-4-byte characters); (d) classes with two bases / two IncludeBase and overrides; (e) fields with '
         'declared defaults left unassigned / assigned / explicitly None (oracle only). Every case also checks: decoded == '
@@ -35,8 +48,11 @@ LEVEL_TEXT = ('Lean 4 theorems about a generic interpreter of TLV model schemas 
               'in field order with shortest T/L and smallest integer width, decode(encode v) = v (MapField included: key '
               'UintField/BytesField, value an element field of another Type, dict keys pairwise different), unknown non-critical '
               'elements skipped and unknown critical ones rejected at every element boundary, also between a map key and its '
-              'value - for ALL schemas and values by structural induction. The interpreter '
-              'is tied to tlv_model.py on every run by differential execution on generated and shipped model classes.')
+              'value - for ALL schemas and values by structural induction; and about a model of the metaclass (for ALL class '
+              'bodies and bases: the position bookkeeping is a Python dict of assignments, names once in first-assignment order, '
+              'last assignment wins in place, bases that are not included contribute nothing, IncludeBaseError exactly for a '
+              'non-base / non-TlvModel, an instance is encoded in that order). The interpreter and the metaclass model are '
+              'tied to tlv_model.py on every run by differential execution on generated and shipped model classes.')
 LEVEL_NOTE = ('Theorems are about the Lean interpreter; interpreter = tlv_model.py is sampled. Marker pseudo-fields (no value) '
               'are outside wfTop; their offsets are covered by C01/C02. struct/memoryview semantics are CPython.')
 TECHNIQUE = 'Lean 4 proof (structural induction over schema trees and field lists) + model/implementation correspondence check'
@@ -134,6 +150,10 @@ def cases(rng, tier):
                'mut': _mutation(rng, fs, vals)}
     for _ in range(200 if tier == 'quick' else 3000):
         yield _inherit_case(rng)
+    for path in _inheriting_shipped():
+        yield {'kind': 'shipcls', 'cls': path}
+    for _ in range(600 if tier == 'quick' else 8000):
+        yield _cls_case(rng)
     for _ in range(800 if tier == 'quick' else 6000):
         fs = _shape_schema(rng)
         vals = [T.random_value(rng, s, present=0.9) for s in fs]
@@ -295,7 +315,231 @@ def _inherit_classes(case):
     return type('InhDerived', bases, dattrs)
 
 
+# ------------------------------------------------------------------ class hierarchies (the metaclass)
+_SHIPCLS = None
+
+
+def _inheriting_shipped():
+    """every TlvModel class shipped with the library that has a base class other than TlvModel or an IncludeBase
+    attribute, as 'module:Name' (found by walking the package; modules that do not import here are skipped)"""
+    global _SHIPCLS
+    if _SHIPCLS is not None:
+        return _SHIPCLS
+    import pkgutil
+    import ndn
+    from ndn.encoding import tlv_model as tm
+    found = set()
+    for m in pkgutil.walk_packages(ndn.__path__, 'ndn.', onerror=lambda n: None):
+        if m.name.startswith('ndn.contrib'):
+            continue
+        try:
+            spec = m.module_finder.find_spec(m.name)
+            if not spec or not spec.origin or 'TlvModel' not in open(spec.origin, encoding='utf-8').read():
+                continue
+            mod = importlib.import_module(m.name)
+        except Exception:     # noqa  (platform-specific modules)
+            continue
+        for n, o in vars(mod).items():
+            if isinstance(o, type) and issubclass(o, tm.TlvModel) and o is not tm.TlvModel and o.__module__ == m.name \
+                    and o.__qualname__ == n:
+                if o.__bases__ != (tm.TlvModel,) or any(isinstance(v, tm.IncludeBase) for v in vars(o).values()):
+                    found.add(f'{m.name}:{n}')
+    _SHIPCLS = sorted(found)
+    return _SHIPCLS
+
+
+FIELD_NAMES = ['a', 'b', 'c', 'd', 'e', 'f1', 'g_2', '_p']
+
+
+def _cls_case(rng):
+    """a small hierarchy of TlvModel classes.  class = {'bases': [index of an earlier class | 'T' (TlvModel itself) |
+    'X' (a mixin that is not a TlvModel)], 'body': the assignments of the class body in order, each
+    [name, 'f', schema] (a field) | [name, 'i', k] (IncludeBase(bases[k])) | [name, 'I', j] (IncludeBase of class j,
+    which is NOT a direct base; -1: an unrelated TlvModel) | [name, 'o'] (something that is not a field)}"""
+    used = set()
+    classes, anc, names_of = [], [], []
+    n = rng.choice([1, 2, 2, 3, 3, 4])
+    for ci in range(n):
+        prev = list(range(ci))
+        bases = []
+        if prev:
+            cand = rng.sample(prev, min(rng.choice([0, 1, 1, 1, 2, 2]), len(prev)))
+            # (a base that is an ancestor of another base has no consistent MRO)
+            bases = [b for b in cand if not any(b in anc[o] for o in cand if o != b)]
+        if not bases or rng.random() < 0.08:
+            bases.append('T')
+        if rng.random() < 0.12:
+            bases.insert(rng.randint(0, len(bases) - 1), 'X')
+        inherited = sorted(set().union(*[names_of[b] for b in bases if isinstance(b, int)]))
+        body = []
+        for _ in range(rng.randint(0, 4)):
+            body.append([rng.choice(FIELD_NAMES + inherited * 2), 'f', _leaf(rng, used)])
+
+        def ins(x):
+            body.insert(rng.randint(0, len(body)), x)
+        for k, b in enumerate(bases):
+            if rng.random() < (0.8 if b != 'X' else 0.1):
+                ins([f'_inc{k}', 'i', k])
+                if rng.random() < 0.08:
+                    ins([f'_again{k}', 'i', k])
+        if rng.random() < 0.15:
+            ins([rng.choice(['helper', 'a', 'b'] + inherited), 'o'])
+        if rng.random() < 0.1:
+            ins([rng.choice(['__hidden', '__a__']), 'f', _leaf(rng, used)])
+        if rng.random() < 0.06:
+            ins(['__inc', 'i', rng.randrange(len(bases))])
+        if ci == n - 1 and rng.random() < 0.08:
+            foreign = [j for j in prev if j not in bases]
+            ins(['_bad', 'I', rng.choice(foreign) if foreign and rng.random() < 0.7 else -1])
+        classes.append({'bases': bases, 'body': body})
+        anc.append(set(b for b in bases if isinstance(b, int)).union(*[anc[b] for b in bases if isinstance(b, int)]))
+        own = {d[0] for d in body if d[1] == 'f'}
+        names_of.append(own.union(*[names_of[bases[d[2]]] for d in body if d[1] == 'i' and isinstance(bases[d[2]], int)]))
+    return {'kind': 'cls', 'classes': classes, 'values': [],
+            'mut': {'kind': 'none', 'gap': 0, 'r': 0, 'even': 2, 'odd': 3, 'payload': ''}}
+
+
+def _visible_dict(body):
+    """cls.__dict__ as the class body leaves it (a name assigned again keeps its place), without dunder names"""
+    d = {}
+    for e in body:
+        d[e[0]] = e
+    return [e for n, e in d.items() if not n.startswith('__')]
+
+
+def _doc_merge(classes):
+    """per class the field list [(name, field id)] the documentation of TlvModel promises ("Derivation", "Overriding":
+    attributes in definition order, an IncludeBase stands for the fields of that base, a name seen before is replaced
+    where it stands), 'IncludeBaseError' for an IncludeBase of a class that is not a base / not a TlvModel, and None
+    where the documentation does not speak (a TlvModel base without its IncludeBase field, or a class built on one)"""
+    out = []
+    for ci, c in enumerate(classes):
+        vis = _visible_dict(c['body'])
+        included = {e[2] for e in vis if e[1] == 'i'}
+        if any(e[1] == 'I' or (e[1] == 'i' and c['bases'][e[2]] == 'X') for e in vis):
+            out.append('IncludeBaseError')
+            continue
+        if any(isinstance(b, int) and (k not in included or not isinstance(out[b], list)) for k, b in enumerate(c['bases'])):
+            out.append(None)
+            continue
+        order, pos = [], {}
+        for e in vis:
+            if e[1] == 'f':
+                items = [(e[0], ci * 100 + next(j for j, x in enumerate(c['body']) if x is e))]
+            elif e[1] == 'i':
+                b = c['bases'][e[2]]
+                items = out[b] if isinstance(b, int) else []
+            else:
+                items = []
+            for nm, fid in items:
+                if nm in pos:
+                    order[pos[nm]] = (nm, fid)
+                else:
+                    pos[nm] = len(order)
+                    order.append((nm, fid))
+        out.append([list(x) for x in order])
+    return out
+
+
+def _q_fields(fields, fid):
+    return ','.join(f'{f.name}={fid[id(f)]}' for f in fields) if fields else '.'
+
+
+def _q_bases(bases_live, fid):
+    """the base classes as the model is told about them: position, and the field list each one has collected"""
+    from ndn.encoding import tlv_model as tm
+    out = []
+    for b in bases_live:
+        if not (isinstance(b, type) and issubclass(b, tm.TlvModel)):
+            out.append('!')
+        else:
+            for f in b._encoded_fields:
+                fid.setdefault(id(f), 100000 + len(fid))
+            out.append(_q_fields(b._encoded_fields, fid))
+    return '|'.join(out) if out else '-'
+
+
+def _run_cls(case):
+    """build the hierarchy with the real metaclass; per class the question for the model and what the library collected"""
+    from ndn.encoding import tlv_model as tm
+    Unrelated = type('Unrelated', (tm.TlvModel,), {'zz': tm.UintField(1)})
+    live, fid, keep, qs, got = [], {}, [], [], []
+    for ci, c in enumerate(case['classes']):
+        bases = tuple(tm.TlvModel if b == 'T' else type(f'Mixin{ci}', (), {}) if b == 'X' else live[b] for b in c['bases'])
+        attrs, decls = {}, []
+        for j, d in enumerate(c['body']):
+            if d[1] == 'f':
+                obj = T._build_field(T.unstrip(d[2]))[0]
+                keep.append(obj)
+                fid[id(obj)] = ci * 100 + j
+                attrs[d[0]] = obj
+                decls.append(f'{d[0]}=f{ci * 100 + j}')
+            elif d[1] == 'i':
+                attrs[d[0]] = tm.IncludeBase(bases[d[2]])
+                decls.append(f'{d[0]}=i{d[2]}')
+            elif d[1] == 'I':
+                attrs[d[0]] = tm.IncludeBase(live[d[2]] if d[2] >= 0 else Unrelated)
+                decls.append(f'{d[0]}=i{len(bases) + 3}')
+            else:
+                attrs[d[0]] = 5
+                decls.append(f'{d[0]}=o')
+        qs.append(f"merge {_q_bases(bases, fid)} {','.join(decls) if decls else '-'}")
+        try:
+            cls = type(f'C{ci}', bases, attrs)
+        except tm.IncludeBaseError:
+            got.append('IncludeBaseError')
+            break
+        live.append(cls)
+        got.append([[f.name, fid.get(id(f), -1)] for f in cls._encoded_fields])
+    return {'cls': True, 'merge_q': qs, 'merge_live': got, 'doc': _doc_merge(case['classes'])[:len(got)]}
+
+
+def _live_question(cls):
+    """the question for the model about a class that exists: bases = cls.__bases__ with the lists they collected, body =
+    cls.__dict__ in order (what the metaclass iterated over)"""
+    from ndn.encoding import tlv_model as tm
+    fid, decls = {}, []
+    bq = _q_bases(cls.__bases__, fid)
+    for name, v in vars(cls).items():
+        if isinstance(v, tm.Field):
+            fid.setdefault(id(v), len(fid))
+            decls.append(f'{name}=f{fid[id(v)]}')
+        elif isinstance(v, tm.IncludeBase):
+            k = [i for i, b in enumerate(cls.__bases__) if b is v.base]
+            decls.append(f'{name}=i{k[0] if k else len(cls.__bases__) + 3}')
+        else:
+            decls.append(f'{name}=o')
+    return f"merge {bq} {','.join(decls) if decls else '-'}", [[f.name, fid.get(id(f), -1)] for f in cls._encoded_fields]
+
+
+def _run_shipcls(case):
+    cls = _cls(case['cls'])
+    q, got = _live_question(cls)
+    return {'cls': True, 'merge_q': [q], 'merge_live': [got], 'doc': [None]}
+
+
+def _merge_answer(a):
+    """driver answer -> the same form as merge_live"""
+    t = a.split()
+    if t[0] == 'err':
+        return t[1]
+    if t[0] != 'ok':
+        return 'model said ' + a
+    return [] if t[1] == '-' else [[x.split('=')[0], int(x.split('=')[1])] for x in t[1].split(',')]
+
+
 def shrink(case):
+    if case['kind'] == 'shipcls':
+        return
+    if case['kind'] == 'cls':
+        cl = case['classes']
+        if len(cl) > 1:
+            yield dict(case, classes=cl[:-1])
+        for i, c in enumerate(cl):
+            for j, d in enumerate(c['body']):
+                # (ids are positions in the body: removing an entry renumbers consistently on both sides)
+                yield dict(case, classes=cl[:i] + [dict(c, body=c['body'][:j] + c['body'][j + 1:])] + cl[i + 1:])
+        return
     if case['kind'] == 'dflt':
         f = case['fields']
         for i in range(len(f)):
@@ -584,6 +828,10 @@ def _plain(x):
 def run_impl(case):
     if case['kind'] == 'dflt':
         return _run_default(case)
+    if case['kind'] == 'cls':
+        return _run_cls(case)
+    if case['kind'] == 'shipcls':
+        return _run_shipcls(case)
     cls, fs, vals = _setup(case)
     out = {'schema_text': T.schemas_text(fs), 'values_text': T.values_text(vals)}
     names = None
@@ -592,6 +840,9 @@ def run_impl(case):
         actual = [T.strip_classes(x) for x in T.class_schema(cls)]
         out['merged_as_documented'] = (actual == [T.strip_classes(x) for x in fs]
                                        and [f.name for f in cls._encoded_fields] == names)
+        # the same class as a question to the model of the metaclass
+        q, got = _live_question(cls)
+        out['merge_q'], out['merge_live'] = [q], [got]
     try:
         if names is None:
             inst = T.to_instance(cls, fs, vals)
@@ -726,12 +977,20 @@ def _lines(case, impl):
 def model_line(case, impl):       # noqa: F811  (enc question; parse question is appended with a separator)
     if case['kind'] == 'dflt':
         return None               # declared defaults are not part of the Lean model: oracle only
+    if impl.get('cls'):
+        return 'C08 ' + ' ;; '.join(impl['merge_q'])
     l1, l2 = _lines(case, impl)
-    return l1 if l2 is None else l1 + ' ;; ' + l2.split(' ', 1)[1]
+    ln = l1 if l2 is None else l1 + ' ;; ' + l2.split(' ', 1)[1]
+    if 'merge_q' in impl:
+        # (only when both earlier questions are there, so that the answers keep their places)
+        ln = ln + ' ;; ' + ' ;; '.join(impl['merge_q']) if l2 is not None else ln
+    return ln
 
 
 def model_obs(answer, case, impl):
     parts = answer.split(' ;; ')
+    if impl.get('cls'):
+        return {'merge': [_merge_answer(a) for a in parts]}
     a = parts[0].split()
     if a[0] == 'ok':
         enc = ['ok', '' if a[1] == '-' else a[1], int(a[2])]
@@ -741,13 +1000,19 @@ def model_obs(answer, case, impl):
     if len(parts) > 1:
         b = parts[1].split()
         out['parse'] = [b[0], b[1]]
+    if len(parts) > 2:
+        out['merge'] = [_merge_answer(a) for a in parts[2:]]
     return out
 
 
 def impl_obs(impl):
+    if impl.get('cls'):
+        return {'merge': impl['merge_live']}
     out = {'enc': impl['enc']}
     if 'parse' in impl:
         out['parse'] = impl['parse']
+        if 'merge_q' in impl:
+            out['merge'] = impl['merge_live']
     return out
 
 
@@ -772,6 +1037,13 @@ def _oracle_default(case, impl):
 def oracle(case, impl):
     if case['kind'] == 'dflt':
         return _oracle_default(case, impl)
+    if impl.get('cls'):
+        for i, (got, doc) in enumerate(zip(impl['merge_live'], impl['doc'])):
+            if doc is not None and got != doc:
+                if doc == 'IncludeBaseError' or got == 'IncludeBaseError':
+                    return 'IncludeBase of a class that is not a base TlvModel: IncludeBaseError expected exactly then'
+                return 'a derived model class does not list its fields in the documented order (own fields, IncludeBase, overrides)'
+        return None
     if impl.get('merged_as_documented') is False:
         return 'a derived model class does not list its fields in the documented order (own fields, IncludeBase, overrides)'
     if impl['enc'][0] == 'err':
@@ -800,10 +1072,26 @@ def oracle(case, impl):
 def nontrivial(case, impl):
     if case['kind'] == 'dflt':
         return impl['enc'][0] == 'ok' and len(case['fields']) >= 2
+    if impl.get('cls'):
+        return any(isinstance(g, list) and len(g) >= 2 for g in impl['merge_live'])
     return _present([T.unjval(v) for v in case['values']]) >= 2 and impl['enc'][0] == 'ok'
 
 
 def tags(case, impl):
+    if impl.get('cls'):
+        t = ['kind:' + case['kind'], 'merge:' + ('IncludeBaseError' if 'IncludeBaseError' in impl['merge_live'] else 'ok'),
+             'merge-doc:' + ('silent' if any(d is None for d in impl['doc']) else 'speaks')]
+        if case['kind'] == 'cls':
+            vis = [_visible_dict(c['body']) for c in case['classes']]
+            t.append('classes:%d' % len(case['classes']))
+            if any(len(c['bases']) > 1 for c in case['classes']):
+                t.append('merge:multi-base')
+            if any(len({e[0] for e in c['body']}) < len(c['body']) for c in case['classes']):
+                t.append('merge:name-assigned-twice')
+            if any(isinstance(b, int) and k not in {e[2] for e in v if e[1] == 'i'}
+                   for c, v in zip(case['classes'], vis) for k, b in enumerate(c['bases'])):
+                t.append('merge:base-not-included')
+        return t
     t = ['kind:' + case['kind'] + ('-shape' if case.get('shape') else ''),
          'mut:' + case['mut']['kind'] + ('-nested' if case['mut'].get('nest') else ''), 'enc:' + impl['enc'][0]]
     for k, v in (impl.get('extras') or {}).items():
@@ -843,12 +1131,56 @@ def _lean_schema(s):
     return '.marker'
 
 
+def _lean_name(n):
+    assert n.isascii() and n.isidentifier(), n
+    return f'"{n}".toList'
+
+
+def _extract_merge():
+    """per shipped class with a base class / IncludeBase: its bases (with the field lists they collected) and its
+    namespace as Lean data, and the obligation that the metaclass model maps them to the live `_encoded_fields`"""
+    from ndn.encoding import tlv_model as tm
+    out, obligations = [], []
+
+    def flist(fields):
+        return '[' + ', '.join(f'({_lean_name(f.name)}, {_lean_schema(T.field_schema(f))})' for f in fields) + ']'
+    for path in _inheriting_shipped():
+        cls = _cls(path)
+        nm = 'merge_' + path.split(':')[0].split('.')[-1] + '_' + path.split(':')[1]
+        bases = ['(some ' + flist(b._encoded_fields) + ')' if issubclass(b, tm.TlvModel) else 'none' for b in cls.__bases__]
+        body = []
+        for name, v in vars(cls).items():
+            if isinstance(v, tm.Field):
+                body.append(f'({_lean_name(name)}, .field {_lean_schema(T.field_schema(v))})')
+            elif isinstance(v, tm.IncludeBase):
+                k = [i for i, b in enumerate(cls.__bases__) if b is v.base]
+                body.append(f'({_lean_name(name)}, .includeBase {k[0] if k else len(cls.__bases__) + 3})')
+            else:
+                body.append(f'({_lean_name(name)}, .other)')
+        out.append(f'def {nm}_bases : List (BaseCls (List Char) Schema) := [' + ',\n    '.join(bases) + ']')
+        out.append(f'def {nm}_body : List (List Char × Decl Schema) := [' + ',\n    '.join(body) + ']')
+        out.append(f'def {nm}_fields : List (List Char × Schema) := ' + flist(cls._encoded_fields))
+        out.append('')
+        obligations.append(f'mergeFields {nm}_bases {nm}_body = .ok {nm}_fields')
+    out.append('/-- for every shipped class with a base class or an IncludeBase attribute the model of the metaclass yields, from')
+    out.append('    the class namespace and the field lists of its bases, the `_encoded_fields` (names, fields, order) the library has -/')
+    if obligations:
+        out.append('theorem shipped_merge_ok :\n    ' + ' ∧\n    '.join('(' + o + ')' for o in obligations) + ' :=\n  ⟨'
+                   + ', '.join('by rfl' for _ in obligations) + '⟩' if len(obligations) > 1 else
+                   'theorem shipped_merge_ok : ' + obligations[0] + ' := by rfl')
+    else:
+        out.append('theorem shipped_merge_ok : True := trivial')
+    out.append('')
+    return out
+
+
 def extract(repo):
     lib = __import__('lib')
     lib.setup_repo_path()
-    out = ['import NdnModel.CodecWF',
+    out = ['import NdnModel.CodecWF', 'import NdnModel.ClassMerge',
            '/- GENERATED on every run by harness/props/c08.py from the live `_encoded_fields` of the model classes',
-           '   shipped with python-ndn.  Do not edit. -/',
+           '   shipped with python-ndn, and (merge_*) from the class namespaces and base classes of the shipped classes that',
+           '   use inheritance / IncludeBase.  Do not edit. -/',
            'namespace Ndn.Gen.C08', 'open Ndn.Codec', '']
     names = []
     for path in SHIPPED:
@@ -863,5 +1195,6 @@ def extract(repo):
     out.append('/-- every shipped model class satisfies the hypothesis of the C08 theorems -/')
     out.append('theorem shipped_wf : shipped.all wfTop = true := by decide')
     out.append('')
+    out += _extract_merge()
     out.append('end Ndn.Gen.C08')
     return '\n'.join(out) + '\n'
